@@ -91,6 +91,7 @@ type Path struct {
 	builders  map[*value]*strings.Builder
 	fs        map[string]*memFile
 	markers   map[int]*Term
+	hashPre   map[string]string // hex hash -> preimage (symstr.go)
 	keyCounter int
 	fpCuts    int
 	regexps   map[*value]*regexp.Regexp
